@@ -266,6 +266,7 @@ type Spec struct {
 	NShards  int
 	Sizes    map[int][2]int // target id -> kept, dropped
 	Interval time.Duration
+	Down     []int // targets that answer 503 from the start
 }
 
 // Loop is a running system.
@@ -372,6 +373,9 @@ func Start(spec Spec, dir, bin string) (*Loop, error) {
 	for id, sz := range spec.Sizes {
 		l.farm.size[id], l.farm.drop[id] = sz[0], sz[1]
 		l.targets[id] = true
+	}
+	for _, id := range spec.Down {
+		l.farm.down[id] = true
 	}
 	for i := 0; i < spec.NShards; i++ {
 		s, err := newShard(fmt.Sprintf("shard-%d", i), filepath.Join(dir, fmt.Sprintf("pvc-%d", i)), bin)
@@ -490,6 +494,40 @@ func (l *Loop) RestartSidecar(i int) error {
 	s.targets, s.last = nil, map[uint64]int64{} // Prometheus of the pod restarts too
 	s.mu.Unlock()
 	return s.startSidecar()
+}
+
+// WipeSidecar kills shard i's sidecar and starts it again on an EMPTY volume (the pod was re-created with a
+// new volume): everything it was assigned is scraped by nobody until the coordinator assigns it again.
+func (l *Loop) WipeSidecar(i int) error {
+	s := l.shards[i]
+	s.sc.Kill()
+	_ = os.RemoveAll(s.dir)
+	_ = os.MkdirAll(s.dir, 0755)
+	s.mu.Lock()
+	s.targets, s.last = nil, map[uint64]int64{}
+	s.mu.Unlock()
+	return s.startSidecar()
+}
+
+// SetDown makes a target answer 503 (or serve again).
+func (l *Loop) SetDown(id int, down bool) {
+	l.farm.mu.Lock()
+	l.farm.down[id] = down
+	l.farm.mu.Unlock()
+}
+
+// IsDown tells whether the target currently answers 503.
+func (l *Loop) IsDown(id int) bool {
+	l.farm.mu.Lock()
+	defer l.farm.mu.Unlock()
+	return l.farm.down[id]
+}
+
+// TrueTotal is the number of samples the target really serves (kept + dropped by the job's rules).
+func (l *Loop) TrueTotal(id int) int64 {
+	l.farm.mu.Lock()
+	defer l.farm.mu.Unlock()
+	return int64(l.farm.size[id] + l.farm.drop[id])
 }
 
 // RestartCoordinator kills the coordinator and starts it again.
